@@ -27,6 +27,11 @@ Forms == {
   [n |-> "col", e |-> A], [n |-> "path", e |-> ColP(<<"o", "k">>)], [n |-> "missing", e |-> Col("zz")],
   [n |-> "num", e |-> LN(2)], [n |-> "str", e |-> LS(<<104, 105>>)], [n |-> "bool", e |-> Lit(BoolV(TRUE))], [n |-> "null", e |-> Lit(Null)],
   [n |-> "add", e |-> Bin("+", A, LN(1))], [n |-> "div", e |-> Bin("/", A, LN(2))], [n |-> "mod", e |-> Bin("%", A, LN(2))],
+  [n |-> "intdiv", e |-> Bin("div", A, LN(2))],
+  \* zero divisors: an error in the specification - whatever the engine does, no +Inf / NaN may come out
+  [n |-> "div0", e |-> Bin("/", A, Bin("-", A, A))], [n |-> "intdiv0", e |-> Bin("div", A, Bin("-", A, A))],
+  [n |-> "mod0", e |-> Bin("%", A, Bin("-", A, A))],
+  [n |-> "subasync", e |-> Sub(NQ(<<Item(FnQ("async", "concat", <<Col("p"), X>>), "q")>>, None))],
   [n |-> "neg", e |-> Un("-", A)], [n |-> "tilde", e |-> Un("~", A)],
   [n |-> "case", e |-> CaseE(<<[c |-> CmpE(">", A, LN(1)), v |-> S_]>>, A)],
   [n |-> "casenoelse", e |-> CaseE(<<[c |-> CmpE(">", A, LN(1)), v |-> Bin("*", A, LN(2))]>>, None)],
